@@ -22,6 +22,10 @@ claimed = {
    "Seeded deterministic-simulation runs over every corpus invoice: the source envelope is optionally stamped (with the stamps its regime requires), signed and crash-restarted or re-encoded, the fake clock is placed at a seeded instant (day changes in UTC and in the regime's zone included), then the envelope is corrected (every invoice type × option subsets, Go options and raw JSON) or replicated through the library, cli.Correct/Replicate over a chunked simulated stream, the bulk action (CLI and HTTP) and the cobra command at the same instant. Oracles: source bytes identical after the operation and after every later in-place mutation of the result (and vice versa); result unsigned, unstamped, new identifiers, no code, requested type, exactly one preceding reference with the source's identifier/type/series/code/date plus reason, extensions and required stamps, freshly calculated; refusal exactly as the published data/regimes and data/addons correction definitions demand; replica keeps parties and line inputs and is dated today; all entry points return the same document.",
    "Refusal is predicted from the published JSON definitions; 'today' may be the UTC or the regime-local date; sources without a code are skipped.",
    "deterministic simulation: clock/entropy-controlled correct/replicate histories with post-operation mutation (aliasing) and cross-entry-point agreement oracles"),
+ "C12": ("exploration", "§5 C12",
+   "Clock-driven simulation, exhaustive over the published tables × boundary dates: for every data/regimes/*.json table, category, rate key, dated value and tag-/extension-qualified variant, tax dates start−1, start, start+1, before-first-value and far-future (plus seeded dates in thorough) are realised by the simulated clock (local 00:00:00, 12:00:00 and 23:59:59 of the date in the regime's time zone, document without dates; one forward walk of ~30 simulated years per regime), by an explicit issue date and by an explicit value date. Oracle from the published JSON: latest start ≤ D among applicable values, a value taking effect on its start date, exempt keys give no percent, no applicable value is an error, unqualified values strictly descending, and the issue date written equals the regime-local date of the simulated instant.",
+   "Oracle tables are the published JSON files, not the Go structs; ties between applicable values accept any of the tied values; the fake clock only moves forward from 2000-01-01, earlier dates are realised explicitly.",
+   "deterministic simulation: fake clock walked through every rate-change boundary in each regime's time zone, oracle from published tables"),
 }
 na = {
  "C01": "pure function of the document: totals vs exact decimal arithmetic has no schedule, clock, fault or history in it (the only clock input, a missing issue date, enters no total)",
@@ -38,7 +42,6 @@ na = {
 }
 pending = {
  "C07": "check under construction in this session (will be claimed; see DESIGN.md §5)",
- "C12": "check under construction in this session (will be claimed; see DESIGN.md §5)",
  "C14": "check under construction in this session (will be claimed; see DESIGN.md §5)",
  "C15": "check under construction in this session (will be claimed; see DESIGN.md §5)",
 }
